@@ -128,12 +128,29 @@ func runC16(c *Ctx) {
 			conf.Threads = 1 + srng.Intn(2)
 			faults = []fault{{Kind: fCorrupt, Nth: 1 + srng.Intn(4), K: 0, Repeat: 100000}}
 		}
+		immediateOnly := false
+		if s%6 == 4 {
+			// outage: from some request on the receiver refuses every data request, so
+			// the senders loop on failures and the channels in front of them stay full
+			// for many seconds before the stop arrives.  Only immediate stops: a graceful
+			// one cannot finish its work while nothing gets through.
+			conf.Threads = 1 + srng.Intn(2)
+			if nfiles < 9 {
+				nfiles = 9 + srng.Intn(8)
+				files = genFiles(srng, nfiles, 3*conf.PayloadSize)
+			}
+			faults = []fault{{Kind: []string{fRefuse, fUnavailable, fCutBefore}[srng.Intn(3)], Nth: 1 + srng.Intn(3), K: 0, Repeat: 100000}}
+			immediateOnly = true
+		}
 		// reference run: count boundary actions of an uninterrupted one-shot run
 		// (every child runs it, so that all agree on the range of stop points;
 		// only the owner of the index counts it as an evaluation)
 		refActs := 0
 		refSeed := srng.Int63()
-		{
+		if immediateOnly {
+			// an uninterrupted run never ends during an outage: fixed range of stop points
+			refActs = 60 + 12*nfiles
+		} else {
 			dir := filepath.Join(c.Work, fmt.Sprintf("c16-ref-%d", s))
 			sc := &c16Scenario{Conf: conf, Files: files, Faults: faults, StopAt: 0, Graceful: true}
 			mine := c.Mine(idx)
@@ -154,6 +171,10 @@ func runC16(c *Ctx) {
 				if k < 4 {
 					sc.StopAt = 0 // the one-shot case, repeated with different latencies
 					sc.Graceful = true
+				}
+				if immediateOnly {
+					sc.Graceful = false
+					sc.StopAt = 1 + rng.Intn(refActs+5)
 				}
 				dir := filepath.Join(c.Work, fmt.Sprintf("c16-%d", idx))
 				c.Guard(idx, sc, func() {
